@@ -3,7 +3,9 @@
 
   hpfeeds/broker/server.py       Server.subscribe / unsubscribe / publish
   hpfeeds/broker/connection.py   Connection.is_closing / connection_lost / on_publish / on_subscribe / on_unsubscribe /
-                                 authenticate / on_auth / on_auth_result / message_received / connection_made
+                                 authenticate / on_auth / on_auth_result / message_received / connection_made /
+                                 pause_writing (with the nested deadline coroutine: its delay and what it does on expiry) /
+                                 resume_writing
   hpfeeds/asyncio/protocol.py    BaseProtocol.message_received (the dispatch on the opcode, handlers resolved along
                                  Connection -> BaseProtocol)
 
@@ -43,6 +45,8 @@ METHODS = [            # (class, method, parameter kinds after self), in depende
     ('BaseProtocol', 'message_received', ['opcode', 'text']),
     ('Connection', 'message_received', ['opcode', 'text']),
     ('Connection', 'connection_made', ['transport-arg']),
+    ('Connection', 'pause_writing', []),
+    ('Connection', 'resume_writing', []),
 ]
 COQTY = {'conn': 'nat', 'text': 'bytes', 'lookup': 'lookup', 'opcode': 'Z', 'ignored': None, 'lres': 'lres', 'transport-arg': None}
 FILES = {'Server': 'hpfeeds/broker/server.py', 'Connection': 'hpfeeds/broker/connection.py',
@@ -129,7 +133,8 @@ class Fn:
                          'subchans': ('chanlist', 'subchans (conns s %s)'),
                          'active_subscriptions': ('chanlist', 'active (conns s %s)'),
                          'authrand': ('text', 'nonce (conns s %s)'),
-                         '_lookups_pending': ('count', '(conns s %s)')}
+                         '_lookups_pending': ('count', '(conns s %s)'),
+                         '_deadline_timer': ('timer', 'timer_running (conns s %s)')}
                 if e.attr in table:
                     kk, fmt = table[e.attr]
                     return kk, '(' + fmt % x + ')', g
@@ -286,7 +291,7 @@ class Fn:
         k, t, g = self.expr(e)
         if k == 'callbool':
             return self.guarded(t, g)
-        if k not in ('bool',):
+        if k not in ('bool', 'timer'):
             raise Unsupported(e, 'condition of kind %s' % k)
         return self.guarded('(pureB (fun s => %s))' % t, g)
 
@@ -374,6 +379,22 @@ class Fn:
             b = self.block(s.body)
             h = self.block(s.handlers[0].body)
             return '(seqB (tryB %s %s)\n   %s)' % (b, h, self.block(rest, top))
+        if isinstance(s, ast.AsyncFunctionDef) and self.key == 'Connection.pause_writing' and self.tr.timer is None:
+            # async def deadline_timer(): await asyncio.sleep(N); <what happens when the deadline expires>
+            b = [x for x in s.body if not (isinstance(x, ast.Expr) and isinstance(x.value, ast.Constant))]
+            a = s.args
+            if (a.args or a.vararg or a.kwarg or a.kwonlyargs or s.decorator_list or not b or not isinstance(b[0], ast.Expr)
+                    or not isinstance(b[0].value, ast.Await) or not isinstance(b[0].value.value, ast.Call)
+                    or not is_attr(b[0].value.value.func, 'sleep') or not is_name(b[0].value.value.func.value, 'asyncio')
+                    or len(b[0].value.value.args) != 1 or not isinstance(b[0].value.value.args[0], ast.Constant)
+                    or type(b[0].value.value.args[0].value) is not int or b[0].value.value.keywords):
+                raise Unsupported(s, 'deadline coroutine shape')
+            for x in ast.walk(ast.Module(body=b[1:], type_ignores=[])):
+                if isinstance(x, (ast.Await, ast.Return, ast.AsyncFor, ast.AsyncWith)):
+                    raise Unsupported(s, 'the deadline coroutine awaits or returns after its sleep')
+            sub = Fn(self.tr, 'Connection', 'deadline_expired', [], [])
+            self.tr.timer = (s.name, b[0].value.value.args[0].value, sub.block(b[1:]))
+            return self.block(rest, top)
         if isinstance(s, ast.AugAssign):
             if (is_attr(s.target, '_lookups_pending') and is_name(s.target.value, 'self') and isinstance(s.value, ast.Constant)
                     and s.value.value == 1):
@@ -485,6 +506,17 @@ class Fn:
             a = tg.attr
             if a in SKIPPED_ATTR_ASSIGN:
                 return self.block(rest, top)
+            if a == '_deadline_timer':
+                v = s.value
+                if (self.key == 'Connection.pause_writing' and self.tr.timer is not None and isinstance(v, ast.Call)
+                        and is_attr(v.func, 'ensure_future') and is_name(v.func.value, 'asyncio') and len(v.args) == 1 and not v.keywords
+                        and isinstance(v.args[0], ast.Call) and is_name(v.args[0].func, self.tr.timer[0]) and not v.args[0].args):
+                    self.counted += 1
+                    return self.seq([self.eff('p_start_timer self Connection_deadline_seconds')], self.block(rest, top))
+                if self.key == 'Connection.resume_writing' and isinstance(v, ast.Constant) and v.value is None:
+                    self.counted += 1               # together with .cancel(): one field (a cancelled task = no task)
+                    return self.block(rest, top)
+                raise Unsupported(s, 'assignment to self._deadline_timer')
             if a == 'server' and isinstance(s.value, ast.Constant) and s.value.value is None:
                 parts = [self.eff('p_unregister self')]
             elif a == 'ak':
@@ -655,6 +687,10 @@ class Fn:
             if [k for k, _, _ in args] != want or any(gg for _, _, gg in args):
                 raise Unsupported(c, 'arguments of Connection.%s' % f.attr)
             return ['(call_stmt (Connection_%s self %s))' % (f.attr, ' '.join(t for _, t, _ in args))]
+        if f.attr == 'cancel' and not c.args and is_attr(f.value, '_deadline_timer') and is_name(f.value.value, 'self') \
+                and self.key == 'Connection.resume_writing':
+            self.enqueued += 1
+            return [self.eff('p_cancel_timer self')]
         # self.protocol_error(..): BaseProtocol's is `pass` and Connection does not override it
         if f.attr == 'protocol_error' and is_name(f.value, 'self') and self.tr.resolve('protocol_error') == 'pass':
             return []
@@ -692,6 +728,7 @@ class Translator:
         self.done = set()
         self.kinds = {(c, m): [k for k in ks if k != 'ignored'] for c, m, ks in METHODS}
         self.uses_pp = False
+        self.timer = None
         self.uses_super = False
         for c, t in self.trees.items():
             imp, met, logs = set(), set(), set()
@@ -802,10 +839,19 @@ class Translator:
                     raise Unsupported(fd, 'ghost anchor %s not met' % anchor)
             if key == 'Connection.on_auth' and (f.enqueued, f.counted) != (1, 1):
                 raise Unsupported(fd, 'on_auth must register one completion and count it once (found %d, %d)' % (f.enqueued, f.counted))
+            if key == 'Connection.pause_writing' and (self.timer is None or f.counted != 1):
+                raise Unsupported(fd, 'pause_writing must define the deadline coroutine and start it once')
+            if key == 'Connection.resume_writing' and (f.enqueued, f.counted) != (1, 1):
+                raise Unsupported(fd, 'resume_writing must cancel the deadline task and forget it')
             if key == 'Connection.on_auth_result' and f.counted != 1:
                 raise Unsupported(fd, 'on_auth_result must decrement the count of lookups in flight once')
             binders = (['(self : nat)'] if c in ('Connection', 'BaseProtocol') else []) + \
                       ['(%s : %s)' % (p, COQTY[k]) for p, k in zip(params, kinds) if COQTY[k] is not None]
+            if key == 'Connection.pause_writing':
+                defs.append('(* %s: the coroutine %s nested in Connection.pause_writing: await asyncio.sleep(N), then ... *)\n'
+                            'Definition Connection_deadline_seconds : nat := %d%%nat.\n'
+                            'Definition Connection_deadline_expired (self : nat) : BM bool :=\n  fn %s.'
+                            % (FILES[c], self.timer[0], self.timer[1], self.timer[2]))
             defs.append('(* %s: %s.%s *)\nDefinition %s_%s %s : BM bool :=\n  fn %s.' % (FILES[c], c, m, c, m, ' '.join(binders), body))
             self.done.add((c, m))
         head = ['(* GENERATED by harness/pytrans3.py from %s, %s and %s - do not edit *)' % tuple(os.path.join(REPO, p) for p in FILES.values()),
